@@ -122,7 +122,7 @@ pub fn run_c16(a: &Args) {
     // ---- G(n,p): structure for every seed, mean edge count over S seeds
     let ns: &[i32] = if a.thorough { &[0, 1, 2, 3, 5, 10, 30, 100, 300] } else { &[0, 1, 2, 3, 5, 10, 30, 60] };
     let ps: &[f64] = &[1e-12, 1e-9, 1e-6, 0.01, 0.1, 0.3, 0.5, 0.9, 0.999999];
-    let s_count: u64 = if a.thorough { 200 } else { 60 };
+    let s_count: u64 = if a.thorough { 1000 } else { 60 };
     let base = 10_000;
     let mut cfg = 0u64;
     for &n in ns {
@@ -443,7 +443,7 @@ fn c17_results(case_kind: u64, rng: &mut Rng, idx: u64) -> Vec<(&'static str, St
 
 pub fn run_c17(a: &Args) {
     let digest_mode = a.extra.iter().any(|e| e == "digest");
-    let total: u64 = if a.thorough { 6_000 } else { 400 };
+    let total: u64 = if a.thorough { 12_000 } else { 400 };
     let reps = if digest_mode { 1 } else if a.thorough { 30 } else { 10 };
     let mut digests: BTreeMap<String, Value> = BTreeMap::new();
     // repeated calls also run under caller-installed pools of different sizes
